@@ -246,6 +246,7 @@ Definition lastmod_of_entry (tps : Z) (e : entry) : option Z := lastmod_of tps (
 Definition touches (k : Z) (ev : event) : bool :=
   match ev with
   | Req _ _ _ _ _ => false
+  | Refresh _ k' _ _ _ => k' =? k
   | Rewrite k' _ => k' =? k
   | Remove k' => k' =? k
   end.
@@ -264,13 +265,24 @@ Proof.
   rewrite lookup_update_other by assumption. exact H.
 Qed.
 
+Lemma load_stale_preserves : forall st k k' up e,
+  k' <> k -> lookup st k = Some e -> lookup (fst (load_stale st k' up)) k = Some e.
+Proof.
+  intros st k k' up e Hne H. unfold load_stale.
+  destruct (lookup st k') eqn:E; [|apply load_preserves; exact H].
+  destruct up; cbn [fst]; try exact H.
+  rewrite lookup_update_other by assumption. exact H.
+Qed.
+
 Lemma step_preserves : forall h tps ma st ev k e,
   lookup st k = Some e -> touches k ev = false ->
   lookup (fst (step h tps ma st ev)) k = Some e.
 Proof.
-  intros h tps ma st ev k e H Ht. destruct ev as [svc k' inm ims up|k' e'|k']; cbn [step touches] in *.
+  intros h tps ma st ev k e H Ht. destruct ev as [svc k' inm ims up|svc k' inm ims up|k' e'|k']; cbn [step touches] in *.
   - pose proof (load_preserves st k k' up e H) as HL.
     destruct (load st k' up) as [st' [[ti body]|]]; cbn [fst] in *; exact HL.
+  - apply Z.eqb_neq in Ht. pose proof (load_stale_preserves st k k' up e Ht H) as HL.
+    destruct (load_stale st k' up) as [st' [[ti body]|]]; cbn [fst] in *; exact HL.
   - cbn [fst]. apply Z.eqb_neq in Ht. rewrite lookup_update_other by assumption. exact H.
   - cbn [fst]. apply Z.eqb_neq in Ht. rewrite lookup_remove_other by assumption. exact H.
 Qed.
@@ -429,18 +441,69 @@ Proof.
 Qed.
 
 (* uncached tile, upstream answers: the tile is stored; the creating answer carries the validators of
-   (now, size) - or of (None, None) when the tile was only linked to an existing single-colour file -, which differ
-   from those of later answers when the backend reports another time *)
-Lemma step_create : forall h tps ma st svc k inm ims body buffered stored,
+   (now, size), which differ from those of later answers when the backend reports another time *)
+Lemma step_create : forall h tps ma st svc k inm ims body now size stored,
   lookup st k = None ->
-  step h tps ma st (Req svc k inm ims (UOk body buffered stored))
+  step h tps ma st (Req svc k inm ims (UOk body now size stored))
   = (update st k stored,
      Some (make_conditional tps
-             (full_resp h tps ma {| ti_cacheable := true; ti_ts := option_map fst buffered;
-                                    ti_size := option_map snd buffered |} body) inm ims)).
+             (full_resp h tps ma {| ti_cacheable := true; ti_ts := Some now; ti_size := Some size |} body) inm ims)).
 Proof.
   intros. cbn [step]. unfold load. rewrite H. rewrite serve_cacheable by reflexivity. reflexivity.
 Qed.
+
+(* stale tile (refresh rule), source answers: the tile is stored again ... *)
+Lemma step_refresh_stores : forall h tps ma st svc k inm ims body now size stored e,
+  lookup st k = Some e ->
+  lookup (fst (step h tps ma st (Refresh svc k inm ims (UOk body now size stored)))) k = Some stored.
+Proof.
+  intros. cbn [step]. unfold load_stale. rewrite H. cbn [fst]. apply lookup_update_same.
+Qed.
+
+(* ... stale tile, source fails with an uncached fill image: no-store answer, the old entry stays *)
+Lemma step_refresh_fill : forall h tps ma st svc k inm ims body e,
+  lookup st k = Some e ->
+  step h tps ma st (Refresh svc k inm ims (UFill body)) = (st, Some (Resp (nostore_resp body))).
+Proof.
+  intros. cbn [step]. unfold load_stale. rewrite H. rewrite serve_uncacheable by reflexivity. reflexivity.
+Qed.
+
+(* ... and (repair of C20-L3) the answer of the refreshing request is the answer for the NEW content: the same as
+   the answer that creates a tile, with the validators of (now, size) *)
+Lemma step_refresh_answer : forall h tps ma st svc k inm ims body now size stored e,
+  lookup st k = Some e ->
+  step h tps ma st (Refresh svc k inm ims (UOk body now size stored))
+  = (update st k stored,
+     Some (make_conditional tps
+             (full_resp h tps ma {| ti_cacheable := true; ti_ts := Some now; ti_size := Some size |} body) inm ims)).
+Proof.
+  intros. cbn [step]. unfold load_stale. rewrite H. rewrite serve_cacheable by reflexivity. reflexivity.
+Qed.
+
+(* so a 304 of the refreshing request is justified by the validators of what it has just stamped *)
+Lemma refresh_answer_sound_304 : forall h tps ma st svc k inm ims body now size stored e st' r,
+  lookup st k = Some e ->
+  step h tps ma st (Refresh svc k inm ims (UOk body now size stored)) = (st', Some (Resp r)) ->
+  r_status r = 304 ->
+  inm = Some (etag_of h {| ti_cacheable := true; ti_ts := Some now; ti_size := Some size |}) \/
+  exists t, st_ticks now <> 0 /\ parse_httpdate ims = PSome t /\ st_ticks now <= t * tps.
+Proof.
+  intros h tps ma st svc k inm ims body now size stored e st' r H Hs H304.
+  cbn [step] in Hs. unfold load_stale in Hs. rewrite H in Hs. inversion Hs; subst.
+  destruct (serve_sound_304 _ _ _ _ _ _ _ _ _ H2 H304) as [_ [_ [Hi|[s [t [Hts [Hnz [Hp Hle]]]]]]]].
+  - left. exact Hi.
+  - right. cbn in Hts. inversion Hts; subst. exists t. repeat split; assumption.
+Qed.
+
+Example ex_refresh_old_date_200 :
+  snd (step (fun s => s) 1 (Some 60)
+        [(5, {| e_ts := {| st_ticks := 1700000000; st_repr := [49] |}; e_size := 100; e_body := 1 |})]
+        (Refresh TMS 5 None (ImsDate 2023 11 14 22 13 20)
+           (UOk 2 {| st_ticks := 1700000500; st_repr := [50] |} 120
+                {| e_ts := {| st_ticks := 1700000500; st_repr := [50] |}; e_size := 120; e_body := 2 |})))
+  = Some (Resp (full_resp (fun s => s) 1 (Some 60)
+                 {| ti_cacheable := true; ti_ts := Some {| st_ticks := 1700000500; st_repr := [50] |}; ti_size := Some 120 |} 2)).
+Proof. reflexivity. Qed.
 
 (* ---- ETag source ambiguity (str(timestamp) ++ str(size) is not injective) ------------------------------- *)
 Lemma etag_source_ambiguous :
@@ -462,7 +525,7 @@ Definition ex_h (s : str) : str := 104 :: s.
 (* a history with requests for the tile and for another one, a rewrite of another tile, conditional headers *)
 Definition ex_history : list event :=
   [Req TMS 5 None ImsAbsent UErr;
-   Req WMTS 6 None ImsAbsent (UOk 9 (Some (ex_stamp, 100)) ex_entry);
+   Req WMTS 6 None ImsAbsent (UOk 9 ex_stamp 100 ex_entry);
    Rewrite 6 ex_entry;
    Req KML 5 (Some (etag_of_entry ex_h ex_entry)) ImsAbsent UErr;
    Req WMSC 5 None (ImsDate 2023 11 14 22 13 20) UErr;
